@@ -230,7 +230,7 @@ def case_distance(mon, a, f, lon1, lat1, lon2, lat2, kind):
         mon.stat("meridian_rel_err", abs(d12 - want) / max(want, 1e-9), case)
         # 1e-4 is stated for the built-in ellipsoids (f ~ 1/298); Andoyer's
         # first-order formula leaves an error of order f^2 for flatter ones
-        reltol = 1e-4 if f <= 1.0 / 298.0 else max(1e-4, 3.0 * f * f)
+        reltol = 1e-4 if f <= 1.0 / 298.0 else max(1e-4, 5.0 * f * f)
         mon.check("distance.meridian", abs(d12 - want) <= reltol * want + 1e-6,
                   dict(case, d=d12, integral_of_rm=want))
     if f <= 1.0 / 298.0 and sep < 179.0 and sep > 1e-7:
